@@ -204,6 +204,11 @@ static void do_resize(unsigned long size)
 	usim_probe("lfht.resize_returned");
 }
 
+/* planned suspension inside an operation: ordinal / length, fixed at generation time */
+static unsigned char stall_ord[MAX_SCRIPT_THREADS][MAX_OPS];
+static unsigned short stall_len[MAX_SCRIPT_THREADS][MAX_OPS];
+static int final_stall_ord, final_stall_len, final_grow, destroy_first;
+
 static void do_op(int me, struct op *op)
 {
 	int k = op->a, i, j;
@@ -379,7 +384,10 @@ static void *h_thread(void *arg)
 		/* resize is issued either way: the library must cope with an online or offline caller */
 		if (F->is_qsbr && !(op->kind == K_RESIZE && (op->b & 1)))
 			F->thread_online();
+		if (stall_ord[me][i])
+			usim_stall_plan(stall_ord[me][i], stall_len[me][i]);
 		do_op(me, op);
+		usim_stall_cancel();
 		size_invariant("after an operation");
 		if (F->is_qsbr && !(op->kind == K_RESIZE && (op->b & 1)))
 			F->thread_offline();
@@ -524,6 +532,9 @@ static void gen(void)
 			}
 			if (op->kind != K_RESIZE && op->kind != K_FILL && op->kind != K_TRAVERSE)
 				total_per_key[op->a]++;
+			/* one operation in five is suspended for a while at one of its first shared-memory accesses */
+			stall_ord[t][i] = rnd(5) == 0 ? 1 + rnd(14) : 0;
+			stall_len[t][i] = (unsigned short) (100 + rnd(3000));
 			if (op->kind == K_RESIZE)
 				usim_describe("%s\"resize(%ld)\"", i ? "," : "", op->v);
 			else if (op->kind == K_FILL)
@@ -536,6 +547,10 @@ static void gen(void)
 		usim_describe("]");
 	}
 	usim_describe("]}");
+	final_stall_ord = (int) usim_param("final_stall_ord", rnd(5) ? 1 + (int) rnd(9) : 0);
+	final_stall_len = 300 + (int) rnd(4000);
+	final_grow = (int) usim_param("final_grow", rnd(2));
+	destroy_first = (int) usim_param("destroy_first", rnd(2));
 	script_apply_skips(scripts, nthreads);
 }
 
@@ -570,7 +585,7 @@ static void run_common(int m)
 	for (t = 0; t < nthreads; t++)
 		if (!scripts[t].skip)
 			voters++;
-	usim_quiet_expect(voters);
+	usim_quiet_expect(voters + 1);	/* the main thread votes after its own final operations (checks, destroy) */
 	for (t = 0; t < nthreads; t++)
 		if (!scripts[t].skip)
 			pthread_create(&scripts[t].th, NULL, h_thread, &scripts[t]);
@@ -667,20 +682,49 @@ static void run_common(int m)
 	if (!nall && ret != 0)
 		usim_fail("lfht-destroy", "cds_lfht_destroy failed (%d) on an empty table", ret);
 	if (nall) {
+		/*
+		 * "A table whose resizes are still queued can be destroyed safely once empty": half of the
+		 * auto-resize tables are first grown explicitly, so that emptying them requests a lazy
+		 * shrink (node accounting) which is then still queued or running when destroy is called.
+		 */
+		if ((ht_flags & CDS_LFHT_AUTO_RESIZE) && final_grow) {
+			if (F->is_qsbr)
+				F->thread_offline();
+			cds_lfht_resize(ht, max_buckets < 32 ? max_buckets : 32);
+			if (F->is_qsbr)
+				F->thread_online();
+			size_invariant("after the final cds_lfht_resize()");
+		}
 		F->read_lock();
 		for (t = 0; t < nall; t++)
 			if (cds_lfht_del(ht, &all[t]->n))
 				usim_fail("lfht-api", "cds_lfht_del of stored node %d failed at quiescence", all[t]->id);
 		F->read_unlock();
-		F->synchronize_rcu();
-		for (t = 0; t < nall; t++)
-			free(all[t]);
+		if (!destroy_first) {
+			F->synchronize_rcu();
+			for (t = 0; t < nall; t++)
+				free(all[t]);
+		}
+		/* the emptiness walk of destroy may be suspended while queued resize work runs */
+		if (ht->size != ht->resize_target)
+			usim_probe(ht->resize_target < ht->size ? "lfht.destroy_while_shrink_pending" : "lfht.destroy_while_grow_pending");
+		usim_trace("final cds_lfht_destroy: size %lu resize_target %lu initiated %d", ht->size, ht->resize_target, ht->resize_initiated);
+		if (final_stall_ord)
+			usim_stall_plan(final_stall_ord, (uint32_t) final_stall_len);
 		ret = cds_lfht_destroy(ht, NULL);
+		usim_stall_cancel();
 		if (ret)
 			usim_fail("lfht-destroy", "cds_lfht_destroy failed (%d) on an empty table", ret);
+		if (destroy_first) {
+			/* the removed nodes are reclaimed after the table has been destroyed */
+			F->synchronize_rcu();
+			for (t = 0; t < nall; t++)
+				free(all[t]);
+		}
 	}
 	if (F->is_qsbr)
 		F->thread_offline();
+	usim_quiet_vote();
 	if (ht_flags & CDS_LFHT_AUTO_RESIZE)
 		usleep(300000);	/* let the queued teardown run: any touch of freed memory is reported */
 	F->barrier();
